@@ -44,6 +44,9 @@ func pkgShort(p *types.Package) string {
 	if p.Path() == ankoPath {
 		return "main"
 	}
+	if strings.HasPrefix(p.Path(), ankoPath+"/cmd/") {
+		return "cmd_" + sanitize(strings.TrimPrefix(p.Path(), ankoPath+"/cmd/"))
+	}
 	if p.Path() == ankoPath+"/ast/astutil" {
 		return "astutil"
 	}
@@ -264,6 +267,9 @@ func pkgShortPath(path, name string) string {
 	if path == ankoPath {
 		return "main"
 	}
+	if strings.HasPrefix(path, ankoPath+"/cmd/") {
+		return "cmd_" + sanitize(strings.TrimPrefix(path, ankoPath+"/cmd/"))
+	}
 	if path == ankoPath+"/ast/astutil" {
 		return "astutil"
 	}
@@ -297,6 +303,7 @@ func (sf *SpecFile) merge(sub *SpecFile, prefix string) error {
 		sf.Lemmas = append(sf.Lemmas, c)
 	}
 	sf.Guarded = append(sf.Guarded, sub.Guarded...)
+	sf.TableExceptions = append(sf.TableExceptions, sub.TableExceptions...)
 	for _, c := range sub.GlobalInvs {
 		c.Pkg = strings.TrimSuffix(prefix, ".")
 		sf.GlobalInvs = append(sf.GlobalInvs, c)
